@@ -126,18 +126,26 @@ PLAY_RE = re.compile(r"vec!\[([0-9, ]*)\]")
 
 
 def parse_playback(text):
-    """Extract the concrete byte vectors of the generated unit test (draw order)."""
-    i = text.find("let concrete_vals")
-    if i < 0:
-        return None
-    j = text.find("kani::concrete_playback_run", i)
-    body = text[i:j]
-    body = body[body.find("vec![") + 5:]
-    vals = []
-    for m in PLAY_RE.finditer(body):
-        s = m.group(1).strip()
-        vals.append([int(x) for x in s.split(",") if x.strip()] if s else [])
-    return vals
+    """Concrete byte vectors of every generated unit test (Kani emits one per failed check AND one per satisfied
+    cover): list of draw lists, in the order printed."""
+    out = []
+    pos = 0
+    while True:
+        i = text.find("let concrete_vals", pos)
+        if i < 0:
+            break
+        j = text.find("kani::concrete_playback_run", i)
+        if j < 0:
+            break
+        body = text[i:j]
+        body = body[body.find("vec![") + 5:]
+        vals = []
+        for m in PLAY_RE.finditer(body):
+            s_ = m.group(1).strip()
+            vals.append([int(x) for x in s_.split(",") if x.strip()] if s_ else [])
+        out.append(vals)
+        pos = j + 10
+    return out or None
 
 
 def verify(job):
